@@ -13,7 +13,7 @@ Canonical(x) ==
     /\ x.member \in {"meta", "unknown", "private"} => x.params \in {"none", "one"}
     \* an attribute read cannot take parameters (with no key configured a $key parameter is an ordinary parameter)
     /\ x.member = "attribute" => x.params = "none" /\ (x.keycfg = "none" => x.par = "absent")
-    /\ x.member \in {"method_slow", "method_streams"} => x.params = "none" /\ x.name = "exact" /\ x.pattern = "default" /\ x.path = "call"
+    /\ x.member \in {"method_slow", "method_streams", "method_vanishes"} => x.params = "none" /\ x.name = "exact" /\ x.pattern = "default" /\ x.path = "call"
     /\ (x.path \in CallPaths /\ ~Registered(x.name)) => x.member \in {"method", "meta"} /\ x.params \in {"none", "one"}
     /\ x.path \in {"extra_seg", "lead_seg"} => x.member = "method" /\ x.params \in {"none", "one"} /\ ~x.oneway
 VARIABLE done
